@@ -2,7 +2,7 @@
 From stdpp Require Import gmap list.
 From Coq Require Import ZArith String.
 From OL Require Import theories.Store theories.Abci theories.Aiming proofs.AimingProofs
-  gen.Facts_Aiming.
+  gen.Facts_Aiming theories.Caches gen.Facts_Caches theories.Globals gen.Facts_Globals.
 Local Open Scope string_scope.
 
 (* for every sequence of consensus hooks, every family of store-use programs, and every
@@ -61,3 +61,14 @@ Example C07_fact_nonvacuous :
   List.length (unaimed_uses [] hook_uses) <> 0%nat /\ List.length hook_uses = 5%nat /\
   forallb (fun '(h, us) => String.eqb h "commitor" || negb (Nat.eqb (List.length us) 0)) hook_uses = true.
 Proof. vm_compute. repeat split; discriminate. Qed.
+
+(* what a CheckTx could leave behind for the consensus calls besides the store singletons of the
+   aiming table is in-memory state that outlives a request: a field of the long-lived application
+   objects, a variable captured by an ABCI closure, or a package-level variable.  Every such place is
+   listed from the source on every run and must be of an audited class (theories/Caches.v,
+   theories/Globals.v); a new one — e.g. a decoded record memoised in a store object, a map of
+   validation outcomes, a decode target kept between requests — is an open obligation. *)
+Theorem C07_fact_no_unclassified_memory :
+  unknown_fields cache_fields = [] /\ closure_vars = [] /\ unknown_globals written_globals = [].
+Proof. vm_compute. repeat split; reflexivity. Qed.
+Print Assumptions C07_fact_no_unclassified_memory.
